@@ -24,12 +24,12 @@ import (
 // is an ordinary set operation (set-operators.md), and a RECURSIVE table whose query has no set operation at the
 // top is an ordinary table.
 //
-//   recset       reference model: 6 places for a nested UNION ALL, recursion by UNION ALL (and by UNION where only values of t1 reach the table), every pair world of the
-//                main check, compared with internal/relm like every other catalogue entry
-//   recset-diff  differential: 11 places x 6 nested operators (UNION, EXCEPT, INTERSECT, each with and without ALL)
-//                x 2 recursion operators; the nested operation does not refer to the recursive table or to an outer
-//                row, so moving it into a preceding non-recursive table of the same WITH clause does not change
-//                the result under any reading; both formulations are run by csvq and have to agree
+//	recset       reference model: 6 places for a nested UNION ALL, recursion by UNION ALL (and by UNION where only values of t1 reach the table), every pair world of the
+//	             main check, compared with internal/relm like every other catalogue entry
+//	recset-diff  differential: 11 places x 6 nested operators (UNION, EXCEPT, INTERSECT, each with and without ALL)
+//	             x 2 recursion operators; the nested operation does not refer to the recursive table or to an outer
+//	             row, so moving it into a preceding non-recursive table of the same WITH clause does not change
+//	             the result under any reading; both formulations are run by csvq and have to agree
 func init() {
 	core.Extend("C03", "family recset: a recursive table whose query contains a further UNION ALL in one of 6 places (two members of the base query, derived table / IN subquery of the base query, "+
 		"derived table / IN subquery / correlated EXISTS of the recursive query) x recursion by UNION ALL (and by UNION where only values of t1 reach the table) x every pair world; oracle: internal/relm (the recursion is the set operation at the top of the table's query). "+
@@ -235,7 +235,9 @@ func c03RecsetDiffPairs() []*c03DiffPair {
 			func(s, root string) string {
 				return rec(base, root, step+" AND EXISTS (SELECT 1 FROM ("+s+") s WHERE s.a = r.a)")
 			},
-			func(root string) string { return rec(base, root, step+" AND EXISTS (SELECT 1 FROM h s WHERE s.a = r.a)") }},
+			func(root string) string {
+				return rec(base, root, step+" AND EXISTS (SELECT 1 FROM h s WHERE s.a = r.a)")
+			}},
 		{"inner-with-clause", false, true,
 			func(s, root string) string {
 				return "r (a, d) AS (WITH h (a) AS (" + s + ") SELECT a, 0 FROM h " + root + " " + step + ") " + outer
@@ -245,8 +247,12 @@ func c03RecsetDiffPairs() []*c03DiffPair {
 			func(s, root string) string { return "r (a) AS (SELECT a FROM (" + s + ") s) SELECT a FROM r" },
 			func(root string) string { return "r (a) AS (SELECT a FROM h s) SELECT a FROM r" }},
 		{"no-recursion:where-in", false, false,
-			func(s, root string) string { return "r (a) AS (SELECT a FROM t1 WHERE a IN (" + s + ")) SELECT a FROM r" },
-			func(root string) string { return "r (a) AS (SELECT a FROM t1 WHERE a IN (SELECT a FROM h)) SELECT a FROM r" }},
+			func(s, root string) string {
+				return "r (a) AS (SELECT a FROM t1 WHERE a IN (" + s + ")) SELECT a FROM r"
+			},
+			func(root string) string {
+				return "r (a) AS (SELECT a FROM t1 WHERE a IN (SELECT a FROM h)) SELECT a FROM r"
+			}},
 		{"sibling-table-after", false, true,
 			func(s, root string) string {
 				return "r (a, d) AS (" + base + " " + root + " " + step + "), h (a) AS (" + s + ") SELECT r.a, d FROM r WHERE r.a IN (SELECT a FROM h)"
